@@ -386,6 +386,48 @@ static void run_classmap(const std::vector<std::string> &f) {
     free(p);
 }
 
+// ------------------------------------------------------------------ Face::readGraphite / Silf::readGraphite (Model/SilfModel.v)
+//   <id> silf <font> <Silf table hex>   ->  <id> SILF ng=<n> na=<n> bx=<0|1> ok=<0|1> err=<code> ctx=<hex> [| per accepted subtable: header fields]
+// The font's other tables come from the file; the Silf table is served from an exact-size heap copy of the given bytes.
+static void run_silf(const std::vector<std::string> &f) {
+    using namespace graphite2;
+    Source src; src.next = 0; src.norel = false; src.misuse = false;
+    std::string path = f[2][0] == '/' ? f[2] : repo + "/tests/fonts/" + f[2];
+    FILE *fp = fopen(path.c_str(), "rb");
+    if (fp) { fseek(fp, 0, SEEK_END); long n = ftell(fp); fseek(fp, 0, SEEK_SET); src.data.resize(n > 0 ? n : 0); if (n > 0 && fread(src.data.data(), 1, n, fp) != (size_t)n) src.data.clear(); fclose(fp); }
+    parse_dir(src);
+    size_t at = src.data.size(), n = 0;
+    if (f[3] != "-") for (size_t i = 0; i + 1 < f[3].size(); i += 2, n++) src.data.push_back((uint8_t)strtoul(f[3].substr(i, 2).c_str(), 0, 16));
+    src.dir[tagof("Silf")] = std::make_pair(at, n);
+    gr_face_ops ops = { sizeof(gr_face_ops), src_get, src_rel };
+    Face *face = new Face(&src, ops);
+    std::string out = f[0] + " SILF";
+    {
+        Face::Table silf(*face, TtfUtil::Tag::Silf, 0x00050000);
+        if (!silf) out += " NOTABLE";
+        else if (!face->readGlyphs(0)) out += " NOGLYPHS";
+        else {
+            const bool feats = face->readFeatures();
+            const bool ok = feats && face->readGraphite(silf);
+            out += " ng=" + std::to_string(face->glyphs().numGlyphs()) + " na=" + std::to_string(face->glyphs().numAttrs()) + " bx=" + (face->glyphs().hasBoxes() ? "1" : "0");
+            char t[64]; snprintf(t, sizeof t, " ok=%d err=%u ctx=%x", ok ? 1 : 0, face->error(), face->m_errcntxt); out += t;
+            if (ok) for (unsigned i = 0; i < face->m_numSilf; i++) {
+                const Silf &s = face->m_silfs[i];
+                unsigned long hj = 1469598103UL, hp = 1469598103UL;
+                for (unsigned k = 0; k < s.m_numJusts; k++) { const Justinfo &j = s.m_justs[k]; unsigned v[4] = { j.attrStretch(), j.attrShrink(), j.attrStep(), j.attrWeight() }; for (int q = 0; q < 4; q++) hj = ((hj ^ v[q]) * 16777619UL) & 0xFFFFFFFFUL; }
+                for (unsigned k = 0; k < s.m_numPseudo; k++) { hp = ((hp ^ s.m_pseudos[k].uid) * 16777619UL) & 0xFFFFFFFFUL; hp = ((hp ^ s.m_pseudos[k].gid) * 16777619UL) & 0xFFFFFFFFUL; }
+                snprintf(t, sizeof t, " | %u %u %u %u %u %u", s.m_numPasses, s.m_sPass, s.m_pPass, s.m_jPass, s.m_bPass, s.m_flags); out += t;
+                snprintf(t, sizeof t, " %u %u %u %u %u", s.m_aPseudo, s.m_aBreak, s.m_aBidi, s.m_aMirror, s.m_aPassBits); out += t;
+                snprintf(t, sizeof t, " %u:%lu %u %u %u %u %u %u", s.m_numJusts, hj, s.m_aLig, s.m_aUser, s.m_iMaxComp, s.m_dir, s.m_aCollision, s.m_gEndLine); out += t;
+                snprintf(t, sizeof t, " %u:%lu %u %u", s.m_numPseudo, hp, s.m_nClass, s.m_nLinear); out += t;
+            }
+        }
+    }
+    delete face;
+    if (src.misuse || !src.live.empty()) out += " LEAKED-TABLE";
+    printf("%s\n", out.c_str());
+}
+
 // ------------------------------------------------------------------ graphite2::sparse (Model/SparseModel.v)
 //   <id> sparse <k:v,k:v,...|-> <key,key,...>     ->  <id> SP <ok|null> cap=<n> <value;value;...>
 static void run_sparse(const std::vector<std::string> &f) {
@@ -421,6 +463,7 @@ int main(int argc, char **argv) {
         else if (f.size() >= 4 && f[1] == "sfnt") run_sfnt(f);
         else if (f.size() >= 4 && f[1] == "sparse") run_sparse(f);
         else if (f.size() >= 4 && f[1] == "classmap") run_classmap(f);
+        else if (f.size() >= 4 && f[1] == "silf") run_silf(f);
         else printf("%s BAD\n", f.empty() ? "?" : f[0].c_str());
         fflush(stdout); case_end();
     }
